@@ -701,9 +701,10 @@ def shapes(tier):
                 out.append(smt2_shape(v, opt, when))
     out.append(smt2_shape("objective", "incremental", "after_solve", max_iter=1))
     out.append(smt2_shape("objective", "incremental", "after_solve", max_iter=2))
-    for v in ("plain", "workers", "cumulative", "buffer_indicator", "optional_zero"):
+    for v in ("plain", "workers", "cumulative", "cumulative_in_list", "buffer_indicator", "optional_zero"):
         out.append(table_shape(v, "dataframe"))
-        out.append(table_shape(v, "excel"))
+        if v != "cumulative_in_list" or tier == "thorough":
+            out.append(table_shape(v, "excel"))
     for tag in ("solution_all_scheduled", "solution_unscheduled", "solution_buffer", "solution_calendar", "definitions_tasks", "definitions_functions", "definitions_tasks_grid", "definitions_functions_grid"):
         out.append(concrete_shape(tag))
     return out
